@@ -32,11 +32,15 @@ pub struct GenOpts {
     /// .dynamic, version sections), possibly with a broken field, anywhere in the table; a .dynamic whose header was
     /// turned into NOBITS/PROGBITS (objcopy --only-keep-debug shape) while PT_DYNAMIC still designates its bytes
     pub unmodelled_shapes: bool,
+    /// the .dynamic section also carries the entries a link editor writes for what the object contains (DT_HASH,
+    /// DT_GNU_HASH, DT_SYMTAB, DT_SYMENT, DT_STRTAB, DT_STRSZ, DT_VERSYM, DT_VERNEED(NUM), DT_VERDEF(NUM)): counts and
+    /// sizes exact, addresses mapped by a PT_LOAD over the whole file
+    pub link_dynamic: bool,
 }
 
 impl GenOpts {
     pub fn standard() -> GenOpts {
-        GenOpts { weird_views: true, compressed: true, name_games: false, early_tables: false, max_syms: 24, density: 5, no_shdrs: false, ragged: true, shuffle_sections: true, unmodelled_shapes: false }
+        GenOpts { weird_views: true, compressed: true, name_games: false, early_tables: false, max_syms: 24, density: 5, no_shdrs: false, ragged: true, shuffle_sections: true, unmodelled_shapes: false, link_dynamic: true }
     }
     pub fn unmodelled() -> GenOpts {
         GenOpts { unmodelled_shapes: true, ..GenOpts::standard() }
@@ -68,11 +72,24 @@ pub struct ObjModel {
     pub views: Vec<usize>,
 }
 
+/// p_memsz is the size of the segment in memory, which no file-level accessor looks at: equal to p_filesz, larger (a
+/// .bss tail), smaller or zero (core-file notes), or anything
+fn memsz_extra(rng: &mut Rng) -> u64 {
+    match rng.below(7) {
+        0 | 1 => 0,
+        2 => rng.below(5),
+        3 => 8 * (1 + rng.below(8)),
+        4 => rng.below(40).wrapping_neg(),
+        5 => 0x1000 + rng.below(0x1000),
+        _ => rng.boundary(64),
+    }
+}
+
 fn has(rng: &mut Rng, o: &GenOpts) -> bool {
     rng.below(8) < o.density
 }
 
-fn dyn_bytes(enc: Enc, entries: &[(u64, u64)]) -> Vec<u8> {
+pub fn dyn_bytes(enc: Enc, entries: &[(u64, u64)]) -> Vec<u8> {
     let mut out = Vec::new();
     for (t, v) in entries {
         Rec::zero(St::Dyn, enc.c64).with("d_tag", *t).with("d_un", *v).encode(enc, &mut out);
@@ -488,14 +505,14 @@ pub fn gen_object(rng: &mut Rng, enc: Enc, o: &GenOpts) -> (ObjSpec, ObjModel) {
         for ns in m.notes.iter_mut() {
             if rng.chance(3, 4) {
                 ns.seg = Some(spec.segs.len());
-                spec.segs.push(Seg { p_type: k::PT_NOTE, flags: 4, range: SegRange::OfSection(ns.sec), vaddr: 0, paddr: 0, memsz_extra: rng.below(5), align: ns.align });
+                spec.segs.push(Seg { p_type: k::PT_NOTE, flags: 4, range: SegRange::OfSection(ns.sec), vaddr: 0, paddr: 0, memsz_extra: memsz_extra(rng), align: ns.align });
             }
         }
         if let Some((idx, _)) = &m.dynamic {
             // whenever section headers exist, PT_DYNAMIC is accompanied by .dynamic (it is that section)
             if rng.chance(3, 4) || o.no_shdrs {
                 m.dynamic_seg = Some(spec.segs.len());
-                spec.segs.push(Seg { p_type: k::PT_DYNAMIC, flags: 6, range: SegRange::OfSection(*idx), vaddr: 0x2000, paddr: 0x2000, memsz_extra: 0, align: 8 });
+                spec.segs.push(Seg { p_type: k::PT_DYNAMIC, flags: 6, range: SegRange::OfSection(*idx), vaddr: 0x2000, paddr: 0x2000, memsz_extra: memsz_extra(rng), align: 8 });
             }
         }
         if o.weird_views {
@@ -539,7 +556,90 @@ pub fn gen_object(rng: &mut Rng, enc: Enc, o: &GenOpts) -> (ObjSpec, ObjModel) {
             }
         }
     }
+    if o.link_dynamic && spec.has_phdrs {
+        link_dynamic(&mut spec, &mut m, rng, enc);
+    }
     (spec, m)
+}
+
+/// Give `.dynamic` the entries a link editor writes for the structures the object contains. Addresses are
+/// `base + file offset` under a PT_LOAD that maps the whole file at `base`; they are exact when the caller builds the
+/// spec right away with the same generator state (the layout is probed with a copy of it), plausible otherwise.
+fn link_dynamic(spec: &mut ObjSpec, m: &mut ObjModel, rng: &mut Rng, enc: Enc) {
+    let Some((didx, entries)) = m.dynamic.as_mut() else { return };
+    let didx = *didx;
+    let symsize = size_of(St::Sym, enc.c64) as u64;
+    // (tag, section whose address it carries) and (tag, value)
+    let mut addr_tags: Vec<(u64, usize)> = Vec::new();
+    let mut val_tags: Vec<(u64, u64)> = Vec::new();
+    if let Some((i, _)) = &m.dynsym {
+        addr_tags.push((6, *i));
+        val_tags.push((11, symsize));
+        let l = spec.secs[*i - 1].link as usize;
+        if l >= 1 && l <= spec.secs.len() {
+            addr_tags.push((5, l));
+            val_tags.push((10, spec.secs[l - 1].body.len() as u64));
+        }
+    }
+    if let Some(i) = &m.sysv_hash {
+        addr_tags.push((4, *i));
+    }
+    if let Some((i, _)) = &m.gnu_hash {
+        addr_tags.push((0x6fff_fef5, *i));
+    }
+    if let Some((vm, _)) = &m.versions {
+        for (i, s) in spec.secs.iter().enumerate() {
+            match s.sh_type {
+                k::SHT_GNU_VERSYM => addr_tags.push((0x6fff_fff0, i + 1)),
+                k::SHT_GNU_VERNEED => {
+                    addr_tags.push((0x6fff_fffe, i + 1));
+                    val_tags.push((0x6fff_ffff, vm.needs.len() as u64));
+                }
+                k::SHT_GNU_VERDEF => {
+                    addr_tags.push((0x6fff_fffc, i + 1));
+                    val_tags.push((0x6fff_fffd, vm.defs.len() as u64));
+                }
+                _ => {}
+            }
+        }
+    }
+    if addr_tags.is_empty() && val_tags.is_empty() {
+        return;
+    }
+    // keep the arbitrary entries, insert the linked ones at random positions in front of the terminator
+    let term = entries.pop();
+    let first_linked = entries.len();
+    for (t, _) in &addr_tags {
+        entries.push((*t, 0));
+    }
+    for (t, v) in &val_tags {
+        entries.push((*t, *v));
+    }
+    let mut order: Vec<usize> = (0..entries.len()).collect();
+    rng.shuffle(&mut order);
+    let shuffled: Vec<(u64, u64)> = order.iter().map(|i| entries[*i]).collect();
+    let pos_of = |orig: usize| order.iter().position(|x| *x == orig).unwrap();
+    let addr_pos: Vec<usize> = (0..addr_tags.len()).map(|j| pos_of(first_linked + j)).collect();
+    *entries = shuffled;
+    if let Some(t) = term {
+        entries.push(t);
+    }
+    spec.secs[didx - 1].body = dyn_bytes(enc, entries);
+    let base: u64 = *rng.pick(&[0u64, 0x1_0000, 0x40_0000, 0x800_0000]);
+    let load = spec.segs.len();
+    spec.segs.push(Seg { p_type: k::PT_LOAD, flags: 5, range: SegRange::Abs(0, 0), vaddr: base, paddr: base, memsz_extra: 0, align: 0x1000 });
+    // probe the layout with a copy of the generator state
+    let mut probe = rng.clone();
+    let b = crate::gen::elf::build(spec, &mut probe);
+    for (j, (_, si)) in addr_tags.iter().enumerate() {
+        if let Some(t) = b.secs.get(*si) {
+            let a = base.wrapping_add(t.off);
+            entries[addr_pos[j]].1 = a;
+            spec.secs[*si - 1].addr = a;
+        }
+    }
+    spec.secs[didx - 1].body = dyn_bytes(enc, entries);
+    spec.segs[load].range = SegRange::Abs(0, b.bytes.len() as u64);
 }
 
 /// Reorder the sections of the table at random; every section index held anywhere (sh_link,
